@@ -36,6 +36,12 @@ func (m *machine) registerReplacements() {
 		"hash/fnv.New64":       "NewFnv64",
 		"hash/fnv.New64a":      "NewFnv64",
 
+		"github.com/libp2p/go-libp2p/core/crypto.GenerateSecp256k1Key":            "GenerateSecp256k1Key",
+		"github.com/libp2p/go-libp2p/core/crypto.UnmarshalSecp256k1PrivateKey":    "UnmarshalSecp256k1PrivateKey",
+		"github.com/libp2p/go-libp2p/core/crypto.UnmarshalSecp256k1PublicKey":     "UnmarshalSecp256k1PublicKey",
+		"(github.com/libp2p/go-libp2p/core/crypto/pb.KeyType).String":             "KeyTypeString",
+		"berty.tech/go-ipfs-log/identityprovider.compressedToUncompressedS256Key": "SameBytes",
+
 		"context.Background":  "CtxBackground",
 		"context.TODO":        "CtxBackground",
 		"context.WithCancel":  "CtxWithCancel",
